@@ -90,7 +90,7 @@ func scanGoStatements(repo string) []string {
 	var found []string
 	for _, dir := range []string{"x", "app", "pkg"} {
 		_ = filepath.Walk(filepath.Join(repo, dir), func(p string, fi os.FileInfo, err error) error {
-			if err != nil || fi.IsDir() || !strings.HasSuffix(p, ".go") || strings.HasSuffix(p, "_test.go") {
+			if err != nil || fi.IsDir() || !strings.HasSuffix(p, ".go") || strings.HasSuffix(p, "_test.go") || strings.HasSuffix(p, ".pb.gw.go") || strings.HasSuffix(p, ".pb.go") || strings.HasSuffix(p, ".pulsar.go") {
 				return nil
 			}
 			if strings.Contains(p, "/client/") || strings.Contains(p, "/simulation/") || strings.Contains(p, "/testutil/") || strings.Contains(p, "zzverif") {
@@ -232,6 +232,17 @@ func run(r *engine.Run) {
 			continue
 		}
 		paths = append(paths, mkPath(plain, idxPlain, g.Name, ""))
+	}
+	// empty blocks under every last-commit voting-power vector over {1,2,5,8}^3 (reward allocation arithmetic)
+	for _, a := range []int64{1, 2, 5, 8} {
+		for _, b := range []int64{1, 2, 5, 8} {
+			for _, c := range []int64{1, 2, 5, 8} {
+				ps := mkPath(busy, idxBusy, "", "")
+				ps.names = []string{fmt.Sprintf("powers=%d/%d/%d", a, b, c), ""}
+				ps.blocks[0].Powers = []int64{a, b, c}
+				paths = append(paths, ps)
+			}
+		}
 	}
 	if !quick {
 		// same-object two-tx blocks and three-block paths over a reduced alphabet
